@@ -3032,7 +3032,7 @@ namespace detail {
                     {
                         end = val.size();
                     }
-                    for (int64_t i = start; i < end; i += step)
+                    for (int64_t i = start; i < end; i = (step < end - i) ? i + step : end)
                     {
                         reference j = this->apply_expressions(val.at(static_cast<std::size_t>(i)), context, ec);
                         if (!j.is_null())
@@ -3051,7 +3051,7 @@ namespace detail {
                     {
                         end = -1;
                     }
-                    for (int64_t i = start; i > end; i += step)
+                    for (int64_t i = start; i > end; i = (step > end - i) ? i + step : end)
                     {
                         reference j = this->apply_expressions(val.at(static_cast<std::size_t>(i)), context, ec);
                         if (!j.is_null())
